@@ -22,6 +22,7 @@ def a_cases(tier):
         for pi in (True, False):
             cs.append(F.pair(ch, end=5 if q else 8, pull_initial=pi))
         cs.append(F.pair(ch, end=5 if q else 8, order=("B", "A"), starts=(0, 1)))
+        cs.append(F.pair(ch, end=5 if q else 8, starts=(2, 0)))
     for mat in ([["F", 2], ["F", 2]], [["F", 1], ["S", 2], ["F", 3]], [["F", 4]]):
         cs.append(F.ring(2, {1: mat}, menu=(1, 2), end=6))
     out = list(cs)
